@@ -18,7 +18,7 @@ inductive Item where
   | map (ps : Pairs)           -- pairs in wire order
   | tag (t : Nat) (x : Item)
   | simple (v : Nat)           -- major type 7, additional info v < 24 (20 false, 21 true, 22 null, 23 undefined)
-  | m7 (ai arg : Nat)          -- major type 7, additional info 24..31 (simple-with-byte, floats, reserved): opaque
+  | m7 (ai arg : Nat)          -- major type 7, additional info 24..27 (simple-with-byte, floats): opaque
   deriving Repr
 inductive Items where
   | nil
@@ -94,14 +94,14 @@ def encodePairs : Pairs → Bytes
 end
 
 /-- Head decoding as `Decoder.typeInfo` does it: `(major, info, argument, rest)`.
-Additional info 28..31 reads no argument bytes and yields argument 0 — that is what
-`toU64(nil)` gives in the code. -/
+Additional info 28..30 (reserved) and 31 (indefinite length / break) are refused. -/
 def decHead : Bytes → Option (Nat × Nat × Nat × Bytes)
   | [] => none
   | b :: r =>
     let mt := b.toNat / 32
     let ai := b.toNat % 32
     if ai < 24 then some (mt, ai, ai, r)
+    else if ai ≥ 28 then none
     else if r.length < argWidth ai then none
     else some (mt, ai, beNat (r.take (argWidth ai)), r.drop (argWidth ai))
 
@@ -215,7 +215,7 @@ def Item.WF : Item → Prop
   | .map ps => 2 * ps.length < maxLen ∧ ps.WF
   | .tag t x => t < 18446744073709551616 ∧ x.WF
   | .simple v => v < 24
-  | .m7 ai arg => 24 ≤ ai ∧ ai < 32 ∧ arg < 256 ^ argWidth ai
+  | .m7 ai arg => 24 ≤ ai ∧ ai < 28 ∧ arg < 256 ^ argWidth ai
 def Items.WF : Items → Prop
   | .nil => True
   | .cons x xs => x.WF ∧ xs.WF
